@@ -86,6 +86,23 @@ def check_pairs(acc: Acc, name: str, grid: list[float], exact_grid: bool, lattic
             k = int(np.argmax(~np.isclose(vals, ref_diag, rtol=0, atol=1e-15))) if vals.shape == ref_diag.shape else 0
             acc.violate("operand-kind", {"norm": name, "operands": kind}, {"norm": name, "a": grid[k], "b": grid[k]}, float(ref_diag[k]),
                         vals.tolist()[:5], f"{name}: {kind} operands give different values than the scalar calls (first at {grid[k]})")
+    # the library's debug switch is a logging level: the same function with it on (and numpy's error state untouched)
+    err_before = np.geterr()
+    fl.settings.debugging = True
+    try:
+        try:
+            dbg = impl.compute(A, B)
+        except Exception as ex:  # noqa: BLE001
+            dbg = f"{type(ex).__name__}: {str(ex)[:60]}"
+    finally:
+        fl.settings.debugging = False
+    err_after = np.geterr()
+    np.seterr(**err_before)
+    acc.cls("debugging_runs")
+    if isinstance(dbg, str) or not np.array_equal(np.asarray(dbg, dtype=float), np.asarray(M, dtype=float), equal_nan=True) or err_after != err_before:
+        acc.violate("configuration", {"norm": name, "setting": "debugging"}, {"norm": name, "a": grid[0], "b": grid[0]}, "same values, numpy error state untouched",
+                    dbg if isinstance(dbg, str) else f"numpy error state {err_after}",
+                    f"{name}: with settings.debugging = True the 2-D call gives {dbg if isinstance(dbg, str) else 'different values'} (numpy error state {err_after})")
     # broadcasting operand kinds: column x row, scalar (float and 0-d array) with an array on either side
     def same_arrays(x, y):
         x = np.asarray(x, dtype=float)
